@@ -69,6 +69,10 @@ func TestVerifC03(t *testing.T) {
 		if w.monitors {
 			w.restart()
 			w.finalLooks()
+			w.resolveOnChain()
+			w.finalLooks()
+			w.restart()
+			w.finalLooks()
 		}
 		em.EndCase(w.accepted > 0)
 		w.close()
